@@ -117,8 +117,10 @@ def run(ctx):
     CHG = "trigger.py::ident_values_changed"
     ctx.rule("R04.3a", "the change predicates equal the reference definition (value changed / named attribute changed / any attribute changed, incl. attributes that appear or disappear)", floor=150)
     vals = [None, ("on", {}), ("on", {"x": 1, "z": 3}), ("off", {"x": 1, "z": 3}), ("on", {"x": 1, "y": 2, "z": 3}), ("on", {"x": 2, "z": 3})]
-    idents_any = [["d.e"], ["d.e.x"], ["d.e.y"], ["d.e.*"], ["d.other", "d.e.*"], ["d.other"], ["d.e.x", "d.e"]]
-    idents_chg = [["d.e"], ["d.e.old"], ["d.e.x"], ["d.e.y"], ["d.other", "d.e.y"], ["d.other"], ["d.e.old.x"], ["x"]]
+    idents_any = [["d.e"], ["d.e.x"], ["d.e.y"], ["d.e.*"], ["d.other", "d.e.*"], ["d.other"], ["d.e.x", "d.e"], ["d.e", "d.e.x"], ["d.e.y", "d.e.x"]]
+    idents_chg = [["d.e"], ["d.e.old"], ["d.e.x"], ["d.e.y"], ["d.other", "d.e.y"], ["d.other"], ["d.e.old.x"], ["x"],
+                  # several watched names of one entity, in both iteration orders (the names are kept in a set)
+                  ["d.e", "d.e.x"], ["d.e.x", "d.e"], ["d.e.old", "d.e.y"], ["d.e.y", "d.e.x"], ["d.e", "d.other.x", "d.e.y"]]
     for new, old in itertools.product(vals, vals):
         if new is None and old is None:
             continue
